@@ -13,8 +13,11 @@ Generator : a Hypothesis RuleBasedStateMachine drives three *actor threads* in l
             `env[k] = v`, `env[k] = DELETE_VAR`, `del env[k]` inside or outside scopes (also on the
             variable the scope swapped); mutation of the live alias overlay (`env_overlay[k] = v`,
             `... = DELETE_VAR`, `del`); replacing an idle actor by a new thread that starts with
-            `set_swapped_values(parent.get_swapped_values())` (what ProcProxyThread / PopenThread do) or
-            by a fresh thread.
+            `set_swapped_values(parent.get_swapped_values())` (what ProcProxyThread / PopenThread do; the
+            parent-side `get` and the child-side `set` are also issued as two operations with other
+            operations - e.g. the parent leaving its scope - in between) or by a fresh thread.  One
+            variable of the pool has a registered `sync` twin (XONSH_SUBPROC_CMD_RAISE_ERROR, swapped
+            by xonsh.api.subprocess), which must follow it into and out of every scope.
 Oracle    : reference model written from the property text: one global mapping + per thread a stack of
             layers (swapped keys, optional overlay) over an inherited base layer.  A thread sees, in this
             order: its overlays (innermost first; documented: "shadows both swapped and global values"),
@@ -32,14 +35,14 @@ Oracle    : reference model written from the property text: one global mapping +
             only for masks; counted as `weak:overlay-key-missing-from-iteration`); (ii) when another
             thread assigns a variable while this thread has it swapped, this thread may afterwards see
             either the value from before its scope or the new one (layer reading vs snapshot reading).
-Findings  : seven recorded defects.  F1-F3 (swap captures the value it *reads* - default, global, overlay -
+Findings  : eight recorded defects.  F1-F3 (swap captures the value it *reads* - default, global, overlay -
             and writes it into the thread-local layer on exit) cannot be kept out of generation, so an
             "as-built" twin of the model that reproduces exactly that capture rule carries the state
             on; a disagreement with the reference model is tolerated only when the observation equals
             the as-built twin AND the variable was subject to that mechanism earlier in the history AND
             the finding is open in known_findings.json (counted in excluded_known).  F4 (failed entry), F5
-            (same key in dict and kwargs), F6 (`del` of the swapped variable inside the scope) are not
-            generated while open (counted).  F7 (shared `_detyped` cache) is excluded by resetting the
+            (same key in dict and kwargs), F6 (`del` of the swapped variable inside the scope), F8 (swap
+            of a variable that has a `sync` twin while it is masked) are not generated while open (counted).  F7 (shared `_detyped` cache) is excluded by resetting the
             cache before every observed `detype()` in three quarters of the histories; the rest run with
             the cache as it is and tolerate exactly "the mapping returned is the cache object another
             thread populated".  With `open_ids=()` (committed replays) nothing is tolerated.
@@ -72,7 +75,8 @@ F4 = "C11-F4"   # entry that fails on a later key leaves the earlier keys swappe
 F5 = "C11-F5"   # same key in the dict and in the kwargs of one swap(): the dict's value survives the exit
 F6 = "C11-F6"   # `del env[k]` of a swapped, previously unset k inside the scope: exit raises KeyError, rest not restored
 F7 = "C11-F7"   # shared detype() cache: another thread receives the swapped values
-ALL_F = (F1, F2, F3, F4, F5, F6, F7)
+F8 = "C11-F8"   # swap of a variable with a `sync` twin entered while the variable is masked: the twin stays swapped
+ALL_F = (F1, F2, F3, F4, F5, F6, F7, F8)
 
 N_ACTORS = 3
 MAX_DEPTH = 5
@@ -84,9 +88,15 @@ POOL = {
     "XPATH": "path", "YPATH": "path",
     "AUTO_CD": "bool", "COMPLETIONS_MENU_ROWS": "int", "INDENT": "str",
     "XONSH_SHOW_TRACEBACK": "bool",
+    "XONSH_SUBPROC_CMD_RAISE_ERROR": "bool", "RAISE_SUBPROC_ERROR": "bool",
 }
 KEYS = list(POOL)
-DEFAULTS = {"AUTO_CD": False, "COMPLETIONS_MENU_ROWS": 5, "INDENT": "    ", "XONSH_SHOW_TRACEBACK": False}
+DEFAULTS = {"AUTO_CD": False, "COMPLETIONS_MENU_ROWS": 5, "INDENT": "    ", "XONSH_SHOW_TRACEBACK": False,
+            "XONSH_SUBPROC_CMD_RAISE_ERROR": False, "RAISE_SUBPROC_ERROR": False}
+# registered `sync` twin (environ.py: assigning the variable also assigns the twin, same layer); only the
+# canonical name is ever written by an operation (the twin is deprecated), both are observed
+SYNC = {"XONSH_SUBPROC_CMD_RAISE_ERROR": "RAISE_SUBPROC_ERROR"}
+READONLY = set(SYNC.values())
 INIT_GLOBAL = {"VB": "b0", "XPATH": ["/x0"], "XONSH_SHOW_TRACEBACK": False}
 
 MASK = ("<mask>",)      # model-side DELETE_VAR
@@ -222,6 +232,8 @@ class Ideal:
         merged = {}
         for k, v in seq:
             merged[k] = v
+            if k in SYNC and v is not MASK:
+                merged[SYNC[k]] = v
         self.T[t].frames.append(IFrame(merged, None if ov is None else dict(ov)))
         return ("entered",)
 
@@ -240,7 +252,11 @@ class Ideal:
                 th.pending.add(k)
 
     def set(self, t, k, v):
+        if k in SYNC and v is not MASK:
+            self.set(t, SYNC[k], v)
         own = self.owner(t, k)
+        if own is not None and v is MASK:
+            return self.delete(t, k)        # documented as equivalent to `del env[k]`
         if own is not None:
             # scoped: replaces the thread's innermost entry, gone when that layer goes
             (own.base if isinstance(own, IThread) else own.kw)[k] = v
@@ -276,19 +292,23 @@ class Ideal:
     def ovdel(self, t, k):
         self.top_overlay(t).pop(k, None)
 
-    def spawn(self, t, frm):
+    def snapshot(self, frm):
+        """What a thread created now by `frm` inherits: frm's swapped values, innermost winning."""
+        p = self.T[frm]
+        flat, anyk = dict(p.base), set(p.base_any)
+        for f in p.frames:
+            for k in f.deleted:
+                flat.pop(k, None)
+                anyk.add(k)
+            for k, v in f.kw.items():
+                flat[k] = v
+                anyk.discard(k)
+        return flat, anyk
+
+    def start(self, t, snap):
         th = IThread()
-        if frm is not None:
-            p = self.T[frm]
-            flat, anyk = dict(p.base), set(p.base_any)
-            for f in p.frames:
-                for k in f.deleted:
-                    flat.pop(k, None)
-                    anyk.add(k)
-                for k, v in f.kw.items():
-                    flat[k] = v
-                    anyk.discard(k)
-            th.base, th.base_any = flat, anyk
+        if snap is not None:
+            th.base, th.base_any = dict(snap[0]), set(snap[1])
         self.T[t] = th
 
 
@@ -357,6 +377,9 @@ class AsBuilt:
             old[k] = cap
             th.local[k] = v
             done.append(k)
+            if k in SYNC and v is not MASK:
+                th.local[SYNC[k]] = v       # assigned with the variable, never captured
+                done.append(SYNC[k])
         if ov is not None:
             th.ovs.append(dict(ov))
         th.scopes.append((old, ov is not None))
@@ -370,6 +393,8 @@ class AsBuilt:
         items = list(old.items())
         for i, (k, (cap, origin)) in enumerate(items):
             if cap is NI:
+                if k in SYNC:
+                    self.taint[SYNC[k]] = F8        # the twin keeps the scope's value
                 if k in th.local or k in self.G:
                     th.local.pop(k, None)
                 elif k not in DEFAULTS:
@@ -380,6 +405,13 @@ class AsBuilt:
                 th.local[k] = cap
                 if origin is not None:
                     self.taint[k] = origin
+                if k in SYNC:
+                    if cap is MASK:
+                        self.taint[SYNC[k]] = F8    # the twin keeps the inner value
+                    else:
+                        th.local[SYNC[k]] = cap
+                        if origin is not None:
+                            self.taint[SYNC[k]] = origin
         return ("exited", how)
 
     def would_raise_on_exit(self, t, k):
@@ -396,10 +428,11 @@ class AsBuilt:
             elif k in self.G:
                 del self.G[k]
             return ("ok",)
-        if k in th.local:
-            th.local[k] = v
-        else:
-            self.G[k] = v
+        for kk in ((SYNC[k], k) if k in SYNC else (k,)):
+            if kk in th.local:
+                th.local[kk] = v
+            else:
+                self.G[kk] = v
         return ("ok",)
 
     def delete(self, t, k):
@@ -418,10 +451,13 @@ class AsBuilt:
     def ovdel(self, t, k):
         self.T[t].ovs[-1].pop(k, None)
 
-    def spawn(self, t, frm):
+    def snapshot(self, frm):
+        return dict(self.T[frm].local)
+
+    def start(self, t, snap):
         th = AThread()
-        if frm is not None:
-            th.local = dict(self.T[frm].local)
+        if snap is not None:
+            th.local = dict(snap)
         self.T[t] = th
 
 
@@ -761,9 +797,13 @@ class History:
         # generator self-check: the pool is what the model assumes
         for k, dv in DEFAULTS.items():
             var = env._vars.get(k)
-            if var is None or var.default != dv or callable(var.default) or getattr(var, "sync", None) \
-                    or getattr(var, "deprecated", None):
+            if var is None or var.default != dv or callable(var.default):
                 raise common.HarnessError("pool variable %s is not registered with plain default %r" % (k, dv))
+            twin = SYNC.get(k) or {v: x for x, v in SYNC.items()}.get(k)
+            if (getattr(var, "sync", None) or None) != twin:
+                raise common.HarnessError("pool variable %s: sync twin is %r, model says %r" % (k, var.sync, twin))
+            if bool(getattr(var, "deprecated", False)) != (k in READONLY):
+                raise common.HarnessError("pool variable %s: deprecation differs from the model" % k)
         for k in KEYS:
             if k not in DEFAULTS and k in env._vars:
                 raise common.HarnessError("pool variable %s is unexpectedly registered" % k)
@@ -796,6 +836,7 @@ class History:
         self.cache_owner = None                       # (id of the cached mapping, actor whose call made it, its pool part)
         self.last_fp = [None] * N_ACTORS
         self.pending_snap = None
+        self.forked = [None] * N_ACTORS
         try:
             self.actors = [Actor(env, i, self.base) for i in range(N_ACTORS)]
             self.observe_all(0, {"op": "init"})
@@ -846,8 +887,16 @@ class History:
                 if self.im.view(a, "__ALIAS_STACK") is ANY or any(k == "__ALIAS_STACK" for k, _ in kw):
                     return False, None
                 kw = kw + [["__ALIAS_STACK", ""]]
+            if any(k in READONLY for k, _ in list(d) + kw):
+                return False, None
+            if any(k in SYNC and self.im.unconstrained(a, SYNC[k]) for k, _ in list(d) + kw):
+                return False, None
             if any(dec(v) is BAD for _, v in list(d) + kw) and F4 in self.open_ids:
                 return False, F4
+            if F8 in self.open_ids and any(
+                    k in SYNC and dec(v) is not MASK and self.am._capture(self.am.T[a], k)[0] in (NI, MASK)
+                    for k, v in list(d) + kw):
+                return False, F8
             if {k for k, _ in d} & {k for k, _ in kw} and F5 in self.open_ids:
                 return False, F5
             return True, None
@@ -855,7 +904,8 @@ class History:
             return self.depth[a] > 0, None
         if kind in ("set", "del"):
             k = op["k"]
-            if self.im.unconstrained(a, k):
+            if k in READONLY or self.im.unconstrained(a, k) or \
+                    (k in SYNC and self.im.unconstrained(a, SYNC[k])):
                 return False, None
             own = self.im.owner(a, k)
             deleting = kind == "del" or dec(op["v"]) is MASK
@@ -867,16 +917,20 @@ class History:
             return True, None
         if kind in ("ovset", "ovdel"):
             return self.im.top_overlay(a) is not None, None
-        if kind == "spawn":
+        if kind in ("spawn", "fork"):
             frm = op.get("from")
+            if kind == "fork" and frm is None:
+                return False, None
             return self.depth[a] == 0 and frm != a, None
+        if kind == "start":
+            return self.depth[a] == 0 and self.forked[a] is not None, None
         return False, None
 
     # -- execution -------------------------------------------------------------------------
     def step(self, op):
         kind = op["op"]
         a = op.get("a", 0)
-        act = self.actors[a] if kind != "spawn" else None
+        act = self.actors[a]
         self.ops.append(op)
         self.steps += 1
         self.labels.add("op:" + kind)
@@ -896,6 +950,7 @@ class History:
             twin = am.enter(a, d, kw_a, ov)
             got = act.call("enter", d, kw, ov, alias)
             touched = {k for k, _ in (d or [])} | {k for k, _ in kw_i} | {k for k, _ in (ov or [])}
+            touched |= {SYNC[k] for k in touched if k in SYNC}
             self._result(op, got, want, twin, touched)
             if got[0] == "entered":
                 self.depth[a] += 1
@@ -925,6 +980,8 @@ class History:
             for frs in self.frames:
                 for fr in frs:
                     fr["written"].add(k)
+                    if k in SYNC:
+                        fr["written"].add(SYNC[k])
             self.labels.add("plain-%s:%s" % (kind, "own-swapped-key" if own is not None else
                                              ("inside-scope" if self.depth[a] else "outside-scope")))
             if own is None and any(im.owner(u, k) is not None for u in range(N_ACTORS) if u != a):
@@ -944,24 +1001,41 @@ class History:
                 raise common.HarnessError("overlay mutation failed in the harness: %r" % (got,))
             for fr in self.frames[a]:
                 fr["written"].add(k)
-        elif kind == "spawn":
+        elif kind in ("spawn", "fork", "start"):
+            # fork  = the parent-side half of ProcProxyThread/PopenThread.__init__ (get_swapped_values);
+            # start = the child-side half, run() (set_swapped_values), possibly many steps later;
+            # spawn = both at once
             frm = op.get("from")
-            vals = None
-            if frm is not None:
-                r = self.actors[frm].call("getswapped")
-                if r[0] != "vals":
-                    self.bad("handover-failed", "get_swapped_values() in actor %d: %r" % (frm, r))
-                vals = r[1]
-            self.actors[a].quit()
-            self.actors[a] = Actor(self.env, a, self.base, init_vals=vals if frm is not None else None)
-            im.spawn(a, frm)
-            am.spawn(a, frm)
-            self.last_fp[a] = None
+            if kind in ("spawn", "fork"):
+                self.forked[a] = None
+                if frm is not None:
+                    r = self.actors[frm].call("getswapped")
+                    if r[0] != "vals":
+                        self.bad("handover-failed", "get_swapped_values() in actor %d: %r" % (frm, r))
+                    # the object is kept as returned, like ProcProxyThread.original_swapped_values
+                    self.forked[a] = (r[1], im.snapshot(frm), am.snapshot(frm), frm)
+                    if self.depth[frm] > 0:
+                        self.labels.add("spawn:inherit-from-inside-scope")
+            if kind in ("spawn", "start"):
+                fk = self.forked[a]
+                self.forked[a] = None
+                self.actors[a].quit()
+                self.actors[a] = Actor(self.env, a, self.base, init_vals=None if fk is None else fk[0])
+                im.start(a, None if fk is None else fk[1])
+                am.start(a, None if fk is None else fk[2])
+                self.last_fp[a] = None
+                if kind == "start":
+                    self.labels.add("start-after-fork")
+                    if self.im.snapshot(fk[3]) != fk[1]:
+                        self.labels.add("start-after-parent-changed")
+                frm = None if fk is None else fk[3]
+            if kind == "fork":
+                self._note_nontrivial()
+                self.observe_all(a, op)
+                return
             if self.cache_owner is not None and self.cache_owner[1] == a:
                 self.cache_owner = (self.cache_owner[0], -1, self.cache_owner[2])   # made by a thread that has ended
             self.labels.add("spawn:" + ("inherit" if frm is not None else "fresh"))
-            if frm is not None and self.depth[frm] > 0:
-                self.labels.add("spawn:inherit-from-inside-scope")
         else:
             raise common.HarnessError("unknown op %r" % (op,))
         self._note_nontrivial()
@@ -1188,7 +1262,7 @@ def make_machine():
 
     actors = st.integers(0, N_ACTORS - 1)
     # a skewed key distribution makes overlapping keys (nesting, cross-thread) the common case
-    keys = st.sampled_from(KEYS + ["VA", "VB", "VB", "XPATH", "AUTO_CD", "VA"])
+    keys = st.sampled_from([k for k in KEYS if k not in READONLY] + ["VA", "VB", "VB", "XPATH", "AUTO_CD", "VA"])
 
     @st.composite
     def pairs(draw, max_size=3, masks=True, bad=False):
@@ -1306,6 +1380,22 @@ def make_machine():
         def spawn(self, a, frm):
             self.do({"op": "spawn", "a": a, "from": frm})
 
+        @rule(a=actors, frm=actors)
+        def fork(self, a, frm):
+            self.do({"op": "fork", "a": a, "from": frm})
+
+        @rule(a=actors)
+        def start_forked(self, a):
+            self.do({"op": "start", "a": a})
+
+        @rule(a=actors, frm=actors, how=st.sampled_from(["return", "raise"]), p=pairs(max_size=2))
+        def handover_race(self, a, frm, how, p):
+            # a proxy thread is created inside a scope and starts running after its creator left the scope
+            self.do({"op": "enter", "a": frm, "d": p, "kw": [], "ov": None})
+            self.do({"op": "fork", "a": a, "from": frm})
+            self.do({"op": "exit", "a": frm, "how": how})
+            self.do({"op": "start", "a": a})
+
     return SwapMachine
 
 
@@ -1336,9 +1426,9 @@ def worker_machine(arg):
 def fixed_cases():
     vals = {"VA": "a", "VB": "b", "XPATH": ["/p", "/q"], "YPATH": ["/p"], "AUTO_CD": True,
             "COMPLETIONS_MENU_ROWS": 7, "INDENT": "", "XONSH_SHOW_TRACEBACK": True, "VC": "c",
-            "__ALIAS_STACK": "x"}
+            "__ALIAS_STACK": "x", "XONSH_SUBPROC_CMD_RAISE_ERROR": True}
     for cache in ("reset", "raw"):
-        for k in KEYS:
+        for k in vals:
             for v in (vals[k], {"del": 1}):
                 for how in ("return", "raise", "base"):
                     for form in ("kw", "dict", "ov"):
@@ -1399,7 +1489,7 @@ def main(run):
     nw = 8 if run.tier == "quick" else 16
     common.pool_map(run, __name__, "worker_fixed", [(i, nw, os.path.join(run.scratch, "f%d" % i), open_ids)
                                                     for i in range(nw)], procs=nw)
-    total = run.n(2000, 100000)
+    total = run.n(1600, 80000)
     steps = run.n(40, 60)
     per = total // nw
     common.pool_map(run, __name__, "worker_machine",
@@ -1417,7 +1507,9 @@ def main(run):
                   ("enter:alias", nh // 10), ("swap-envpath", nh // 5), ("swap-defaulted-unset", nh // 5),
                   ("spawn:inherit-from-inside-scope", nh // 20), ("plain-set:inside-scope", nh // 5),
                   ("plain-del:inside-scope", nh // 10), ("op:ovset", nh // 10), ("depth:3", nh // 20),
-                  ("plain-write-while-another-thread-has-it-swapped", nh // 20), ("cache:raw", nh // 10)]
+                  ("plain-write-while-another-thread-has-it-swapped", nh // 20), ("cache:raw", nh // 10),
+                  ("start-after-parent-changed", nh // 20), ("plain-set:own-swapped-key", nh // 40),
+                  ("registry:full", nh // 20)]
         low = ["%s=%d<%d" % (k, h.get(k, 0), v) for k, v in floors if h.get(k, 0) < v]
         if low:
             raise common.HarnessError("generator incomplete, under the floor: " + ", ".join(low))
